@@ -246,6 +246,14 @@ func GetAttrString(self Object, key string) (res Object, err error) {
 		}
 	}
 
+	// If self is a type then its attributes are also those of its
+	// base classes, in method resolution order
+	if T, ok := self.(*Type); ok {
+		if res = T.Lookup(key); res != nil {
+			return res, nil
+		}
+	}
+
 	// Now look in type's dictionary etc
 	t := self.Type()
 	res = t.NativeGetAttrOrNil(key)
